@@ -14,6 +14,8 @@ package sign
 // ---- start function (C20): a session is created only for non-nil key material, a non-empty message and a signer
 // set that is duplicate-free, contains this party, has more than threshold members and only shareholders.
 //@ func StartSign$1
+// (C09) the session tag is derived under this protocol's OWN identifier (pairwise distinct across all start functions)
+//@   assert_at[C09] NewSession "helper, err := round.NewSession(info, sessionID, pl, config, types.SigningMessage(message))": arg0.ProtocolID == "cmp/sign" && arg0.FinalRoundNumber == 5
 //@   nopanic[C20]
 //@   requires config != nil ==> cfgwf(config)
 //@   ensures[C20] result1 != nil ==> result0 == nil
